@@ -16,12 +16,14 @@ CLAIM = dict(
               "functors and composition shapes (compile-probed allow-list vf/c14_supported.json); each program records functor results "
               "for every curry split / parenthesisation next to the direct view call, extracted operands by address, and the dumped "
               "compute graph; Python compares elementwise and checks the graph against the expression tree (networkx isomorphism)",
-    text="For each generated expression (quick ~40, thorough ~300; deterministic core + VERIF_SEED-chosen part) and several seeded "
-         "run-time argument sets: (A) one functor, every attribute/operand split incl. attributes after curried operands vs view::f(...); "
+    text="For each generated expression (quick ~50 in 13 TUs, thorough ~450 in ~113 TUs: deterministic core + VERIF_SEED-chosen chunks of the "
+         "525-expression allow-list) and 3/5 seeded run-time argument sets (shapes, data with unique labels, axes/shapes/scalars): "
+         "(A) one functor, every attribute/operand split incl. attributes after curried operands vs view::f(...), all 12 functor families; "
          "(B) chains of 2..4 functors with n-ary functors in any position and swap/dup/dig/bury, flat / every parenthesisation / curried / "
          "nested functor calls vs the nested direct view calls given by an independent stack model; (C) view trees of depth 1..4: "
          "get_function_operands addresses vs the leaves in DFS order, apply(get_function_composition, operands) vs the view, and "
-         "get_compute_graph nodes/ids/ordered operands/edges vs the expression tree. Held-on-observed, not a proof.",
+         "get_compute_graph node count / unique ids / leaf addresses / ordered operands / output shapes / edge set (networkx isomorphism) vs "
+         "the expression tree. A case whose direct view call alone dies or is Nothing is not counted. Held-on-observed, not a proof.",
     note="Trusted: the generator's stack model and expression tree, networkx, " + SAN + ". Expressions that do not compile on the "
          "unchanged tree are outside the allow-list and are not generated (listed under 'rejected' in vf/c14_supported.json); a TU that "
          "stops compiling is inconclusive. The reference for values is the library's own direct view call (equivalence property), "
